@@ -11,14 +11,46 @@ use lib::{
 use std::collections::HashMap;
 
 // pure driver modules from the working tree (they refer to `emulator_8086_lib` and
-// `super::error_helper`, both of which resolve here)
+// `super::error_helper`, both of which resolve here).  If a change to the driver makes them depend on
+// something that does not exist here (a new sibling module, say), the harness is built without them
+// (feature driver_src off): the in-process driver-level parts are then skipped and the CLI parts decide.
+#[cfg(feature = "driver_src")]
 #[path = "/repo/src/driver/error_helper.rs"]
 pub mod error_helper;
+#[cfg(feature = "driver_src")]
 #[path = "/repo/src/driver/preprocess.rs"]
 pub mod preprocess;
+#[cfg(feature = "driver_src")]
 #[allow(clippy::all, unused_imports, dead_code, unused_variables)]
 #[path = "/repo/src/driver/print.rs"]
 pub mod print;
+
+pub const DRIVER_SRC: bool = cfg!(feature = "driver_src");
+
+#[cfg(not(feature = "driver_src"))]
+pub mod error_helper {
+    pub fn get_err_pos(_l: &emulator_8086_lib::LexerHelper, _pos: usize) -> (usize, usize, usize) {
+        (0, 0, 0)
+    }
+}
+#[cfg(not(feature = "driver_src"))]
+pub mod preprocess {
+    pub fn preprocess(input: &str) -> Result<((), (), ()), String> {
+        super::assemble(input).map(|_| ((), (), ()))
+    }
+}
+#[cfg(not(feature = "driver_src"))]
+pub mod print {
+    pub struct PrintParser;
+    impl PrintParser {
+        pub fn new() -> Self {
+            PrintParser
+        }
+        pub fn parse(&self, _vm: &emulator_8086_lib::VM, _s: &str) -> Result<(), String> {
+            Ok(())
+        }
+    }
+}
 
 thread_local! {
     pub static PRE: Preprocessor = Preprocessor::new();
